@@ -5,3 +5,4 @@ import Pendulum.Props.C09
 import Pendulum.Props.C10
 import Pendulum.Props.C13
 import Pendulum.Props.C15
+import Pendulum.Props.C18
